@@ -1,5 +1,7 @@
 package main
 
+import "golang.org/x/tools/go/ssa"
+
 func init() {
 	checks["C10"] = checkC10
 	explanations["C10"] = "wip"
@@ -10,4 +12,6 @@ func checkC10(c *Ctx, p *Prog, r *Result) {
 	if debugDump == "survey" {
 		e.survey()
 	}
+	e.g1(r, "C10")
+	_ = ssa.Function{}
 }
